@@ -59,6 +59,13 @@ def _higher_order(fv):
     return False
 
 
+# method names that change a standard container, whatever its class is
+GLOBAL_MUTATORS = ('setdefault', 'add', 'append', 'update', 'pop', 'popitem',
+                   'clear', 'remove', 'discard', 'extend', 'insert',
+                   '__setitem__', '__delitem__', 'appendleft', 'popleft',
+                   'sort', 'reverse')
+
+
 class Summary(object):
     def __init__(self, fi, nparams):
         self.fi = fi
@@ -335,6 +342,12 @@ class Effects(object):
                                             params):
                             s.stores.setdefault(j, set()).add(i)
             elif e.kind in ('call', 'mcall', 'construct'):
+                if e.kind == 'mcall' and e.name in GLOBAL_MUTATORS and \
+                        -1 in self.roots(e.target, params):
+                    g = '%s on module/class level object %r at %s' % (
+                        e.name, _base(e.target), I.where(e.node, f.module))
+                    if g not in s.gwrites:
+                        s.gwrites.append(g)
                 if e.kind == 'mcall':
                     key = ('name', e.name)
                     args = [e.target] + list(e.args)
